@@ -84,7 +84,7 @@ def parse_vc(ident, text):
     while i < len(lines):
         ln = lines[i]
         i += 1
-        if not ln.strip() or ln.lstrip().startswith("#"):
+        if not ln.strip() or ln.startswith("#"):
             continue
         if not ln[0].isspace():
             flush()
